@@ -65,7 +65,7 @@ func VerifC10Hist() {
 	small := verifParam("small") == "1"
 	interval := c10Pick("interval", verifParam("intervals"))
 	wait := c10Pick("wait", verifParam("waits"))
-	verifAssume(interval >= 1) // interval 0 divides by zero: property C14
+	verifAssume(interval != 0) // interval 0 divides by zero: property C14
 
 	clock0 := verifUint32("clock0")
 	c10Clock = int64(clock0)
